@@ -23,8 +23,8 @@ C12.labels  the RRSIG Labels value discounts only a *leftmost* wildcard label
 """
 import re
 
-from mirlib import BranchFacts, strip, deep_strip, show, walk, const_value
-from rulelib import bool_facts, cyclic_blocks, return_assignments
+from mirlib import BranchFacts, strip, deep_strip, show, walk, const_value, closures_created_in
+from rulelib import bool_facts, cyclic_blocks, return_assignments, must_pass
 import sigs
 from c04 import access_path
 
@@ -48,6 +48,11 @@ def run(ctx):
     # both sides sort the RRset with canonical_cmp: its agreement with the canonical form is part of "signatures verify"
     import c04
     c04.rule_canon(ctx, F)
+    rule_sorted(ctx, F)
+    # a signature is made over / verified against the record data as it is: conversions between octets types keep every
+    # field (Rrsig::flatten, convert_octets, OctetsFrom) -- shared with C05
+    import c05
+    c05.rule_conv(ctx, F)
 
 
 def _tokens(b, F, depth=0):
@@ -167,6 +172,55 @@ def rule_sort(ctx, F):
                for p, cb in F.bodies.items() if "sign::records::" in p)
     ctx.ob(R, "dnssec::sign::records::SortedRecords", "signer's record collection orders by canonical_cmp", uses,
            "SortedRecords no longer orders with CanonicalOrd::canonical_cmp")
+
+
+def rule_sorted(ctx, F):
+    """SortedRecords is what the signer signs in stored order, so its records are in canonical order *including the
+    record data* after every operation: a record goes in at the index a binary search with canonical_cmp returned, or
+    the collection is sorted with canonical_cmp before the function returns.  A `push` without either (an
+    append fast path judged by class, owner and type) leaves an RRset out of canonical order."""
+    R = "C12.sorted"
+    ctx.floor(R, 2)
+    n = 0
+
+    def uses_canonical(b, bb):
+        """the comparator handed to the call at bb is canonical_cmp (as a function item) or a closure that reaches it"""
+        for a in b.blocks[bb]["t"]["args"]:
+            if a[0] == "k" and a[3] and "canonical_cmp" in a[3]:
+                return True
+        for bi, cb, ops in closures_created_in(F, b):
+            if any((t["fn"] or "").endswith("CanonicalOrd::canonical_cmp") or (t["fn"] or "").endswith("::compare") for _, t in cb.calls()):
+                return True
+        return False
+    for p, b in sorted(F.bodies.items()):
+        if "sign::records::SortedRecords" not in p or "::test" in p or "{closure" in p:
+            continue
+        adds = [(bb, t) for bb, t in b.calls()
+                if re.search(r"Vec::<.*>::(push|insert|extend|append|extend_from_slice)$|Extend<.*>::extend$", t["fn"] or "")]
+        if not adds:
+            continue
+        sorts = [bb for bb, t in b.calls() if re.search(r"::(sort_by|sort_unstable_by|par_sort_by|sort)$", t["fn"] or "") and uses_canonical(b, bb)]
+        searches = [bb for bb, t in b.calls() if re.search(r"::binary_search_by$", t["fn"] or "") and uses_canonical(b, bb)]
+        rets = [i for i in b.reachable_blocks() if b.blocks[i]["t"]["k"] == "ret" and not b.blocks[i].get("c")]
+        for bb, t in adds:
+            n += 1
+            how = None
+            last = (t["fn"] or "").split("::")[-1]
+            if last == "insert" and len(t["args"]) >= 3:
+                idx = deep_strip(b.term_of_operand(t["args"][1]))
+                if any(s_[0] == "call" and (s_[1] or "").endswith("::binary_search_by") for s_ in walk(idx)) and \
+                        any(b.dominates(sb, bb) for sb in searches):
+                    how = "at the index of a canonical binary search"
+            if how is None and sorts:
+                holds, path = must_pass(b, bb, rets, sorts)
+                if holds:
+                    how = "sorted canonically before returning"
+            ctx.ob(R, b, "%s keeps canonical order #%d" % (last, sum(1 for o in ctx.obs if o.rule == R and o.fn == b.path) + 1), how is not None,
+                   "%s adds a record to the collection with Vec::%s neither at the position a binary search with canonical_cmp "
+                   "gave nor followed by a canonical sort: records of one RRset can end up out of canonical order (the comparison "
+                   "has to include the record data), and sign_sorted_zone_records signs them in stored order -- the RRSIG never "
+                   "verifies" % (p.split("::")[-1], last), b.where(bb), detail=how)
+    ctx.call_sites += n
 
 
 def rule_labels(ctx, F):
